@@ -298,6 +298,7 @@ type Frame struct {
 	callOrd  int
 	parent   *Frame
 	paramClos map[*ssa.Parameter]*closureRef
+	fmtSlice  ssa.Value
 }
 
 type closureRef struct {
